@@ -55,6 +55,10 @@ func main() {
 			var c ACase
 			r.LoadReplay(&c)
 			bad = replayA(c)
+		case "v":
+			var c VCase
+			r.LoadReplay(&c)
+			bad = replayV(c)
 		case "b":
 			var c BCase
 			r.LoadReplay(&c)
@@ -87,6 +91,7 @@ func main() {
 	t0 := time.Now()
 	if only == "" || only == "a" {
 		runPartA()
+		runSetChangeWorlds()
 		fmt.Printf("part (a) done in %.1fs\n", time.Since(t0).Seconds())
 	}
 	t1 := time.Now()
